@@ -148,7 +148,7 @@ def tellIf (s : St) (msg : Msg) (key : TellKey) (r : ModId) : St :=
   | none => s
   | some md =>
     if md.state == .running || md.state == .paused then
-      let copy := { msg with sub := key.subOf }
+      let copy := { msg with sub := key.subOf, rcpt := some r }
       let s1 := holderRef s msg.holder
       match md.pipe with
       | some q =>
